@@ -94,6 +94,24 @@ def gen_conv_exclude(r, tier):
     return sc
 
 
+def gen_conv_hdr(r, tier):
+    """Directed: --header-lines=N with one or two reloads: the first N records of EVERY stream are header
+    lines, never items."""
+    nA = r.choice([5, 12, 40, 150])
+    sc = dict(A=gen_lines(r, nA), B=gen_lines(r, r.choice([4, 9, 30, 120])), exact=False, sort=r.random() < 0.7, tac=r.random() < 0.2, nth='-',
+              bursts=[(nA, 0)], excludes=0, hdr=r.choice([1, 2, 3]))
+    steps = []
+    if r.random() < 0.5:
+        steps.append((30, ('change-query', r.choice(['a', 'o', 'f', '']))))
+    steps.append((r.choice([50, 150]), (r.choice(['reload', 'reload', 'reload-sync']), None)))
+    if r.random() < 0.4:
+        steps.append((r.choice([80, 200]), ('reload', None)))
+    if r.random() < 0.5:
+        steps.append((r.choice([0, 60]), ('change-query', r.choice(['a', 'o', 'b', '']))))
+    sc['steps'] = steps
+    return sc
+
+
 def enc_step(s):
     d, (name, arg) = s
     return '%d:%s%s' % (d, name, '' if arg is None else '=' + ('.'.join(str(x) for x in arg.encode()) or 'e'))
@@ -112,13 +130,15 @@ def dec_step(t):
 def sc_to_setup(sc):
     return '%d,%d,%d,%s|%s|%s|%d' % (sc['exact'], sc['sort'], sc['tac'], sc['nth'],
                                     ';'.join('%d.%d' % b for b in sc['bursts']), ';'.join(enc_step(s) for s in sc['steps']) or '_',
-                                    sc['excludes'])
+                                    sc['excludes']) + ('|h%d' % sc['hdr'] if sc.get('hdr') else '')
 
 
 def setup_to_sc(setup, A, B):
-    o, bursts, steps, ex = setup.split('|')
+    fields = setup.split('|')
+    o, bursts, steps, ex = fields[:4]
+    hdr = int(fields[4][1:]) if len(fields) > 4 else 0
     e, s, t, nth = o.split(',')
-    return dict(A=A, B=B, exact=e == '1', sort=s == '1', tac=t == '1', nth=nth,
+    return dict(hdr=hdr, A=A, B=B, exact=e == '1', sort=s == '1', tac=t == '1', nth=nth,
                 bursts=[tuple(int(x) for x in b.split('.')) for b in bursts.split(';')],
                 steps=[] if steps == '_' else [dec_step(x) for x in steps.split(';')], excludes=int(ex))
 
@@ -146,6 +166,8 @@ def run_conv(fzf, tmp, sc):
             args.append('--tac')
         if sc['nth'] != '-':
             args += ['--nth', sc['nth']]
+        if sc.get('hdr'):
+            args.append('--header-lines=%d' % sc['hdr'])
         s = Session(fzf, args, [], tmp, input_cmd="sh '%s'" % prod)
         try:
             if s.wait_ready() is None:
@@ -195,7 +217,7 @@ def run_conv(fzf, tmp, sc):
                     return None, 'lost after exclude'
             time.sleep(0.05)
             final = json.loads(s._req_path('/?limit=1000000').decode('utf-8', 'replace'))
-            lines = sc[loaded]
+            lines = sc[loaded][sc.get('hdr', 0):]      # the first --header-lines records of the loaded stream are not items
             lhs = 'matcher conv %d %d %d %s %s %s %s %s' % (sc['exact'], sort, sc['tac'], nth if nth else '-', enc_bytes(final['query'].encode()),
                                                          ','.join(str(x) for x in excluded) or '-', enc_strlist([l.encode() for l in lines]),
                                                          sc_to_setup(sc))
@@ -220,12 +242,16 @@ def drv_conv(tier, seed, ctx):
     from vcheck import evaluate
     n = 30 if tier == 'quick' else 500
     r = random.Random(seed * 15485863 + 3)
-    if ctx.get('pid') == 'C05':
+    if ctx.get('pid') == 'C06':
+        # every record of every stream becomes one item, except the header lines of that stream
+        n = 8 if tier == 'quick' else 120
+        scs = [gen_conv_hdr(r, tier) for _ in range(n)]
+    elif ctx.get('pid') == 'C05':
         # matching as a function of (line, query, options) only: the directed field-scope histories
         n = 10 if tier == 'quick' else 150
         scs = [gen_conv_nth(r, tier) for _ in range(n)]
     else:
-        scs = [gen_conv_nth(r, tier) if i < 4 or i % 12 == 0 else gen_conv_exclude(r, tier) if i < 8 or i % 12 == 1 else gen_conv(r, tier) for i in range(n)]
+        scs = [gen_conv_nth(r, tier) if i < 4 or i % 12 == 0 else gen_conv_exclude(r, tier) if i < 8 or i % 12 == 1 else gen_conv_hdr(r, tier) if i < 11 or i % 12 == 2 else gen_conv(r, tier) for i in range(n)]
     notes = []
     with ThreadPoolExecutor(max_workers=8) as ex:
         outs = list(ex.map(lambda sc: _work(ctx, sc), scs))
@@ -280,6 +306,10 @@ def replay(rp, ctx):
         loaded = dec(toks[8])
         # the case line carries only the loaded input; both inputs are that one then
         sc = setup_to_sc(toks[9], loaded, loaded)
+        if sc.get('hdr'):
+            # the case line holds the items only: put header lines back in front of both streams
+            hs = ['header %d' % i for i in range(sc['hdr'])]
+            sc['A'], sc['B'] = hs + sc['A'], hs + sc['B']
     sc['steps'] = [(d, tuple(a)) for d, a in sc['steps']]
     sc['bursts'] = [tuple(b) for b in sc['bursts']]
     line, _ = _work(ctx, sc)
